@@ -607,4 +607,24 @@ PROPS['C12'].update({
                    'the hand transcription SMT <-> Lean of the lemma statements (lemmas/README.md). Not modelled: codecs, os.linesep on real files, repr / ast.literal_eval, '
                    'texts written by other programs, csv dialect arguments.'),
 })
+# bin()-based bitsets helpers proved (contracts/bitsets_bin.py, lemmas/BitsBin.lean, DESIGN 11.22): no longer assumed
+_OLD_BS = "bin(x).count('1') = member count, indexes_optimized = indexes (both via bin()), the class registry."
+_NEW_BS = ("the class registry; that CPython's bin / format / slicing / str.count compute the List Char definitions of lemmas/BitsBin.lean (validated, 2.7M instances) -- "
+           "count() = number of members and indexes_optimized = indexes are proved from them (units bitsets.MemberBits.count, bitsets.integers.indexes_optimized).")
+for _p in PROPS:
+    PROPS[_p]['level_note'] = PROPS[_p]['level_note'].replace(_OLD_BS, _NEW_BS)
+    if 'bitsets.MemberBits.members' in PROPS[_p]['units'] and 'bitsets.integers.indexes_optimized' not in PROPS[_p]['units']:
+        PROPS[_p]['units'] += ['bitsets.integers.indexes_optimized']
+    if 'bitsets.MemberBits.shortlex' in PROPS[_p]['units']:
+        PROPS[_p]['units'] += [u for u in ('bitsets.MemberBits.count', 'lemma.bitsets.shortlex_key') if u not in PROPS[_p]['units']]
+PROPS['C18']['units'] += [u for u in ('bitsets.MemberBits.count', 'lemma.bitsets.shortlex_key') if u not in PROPS['C18']['units']]
+PROPS['C14']['units'] += [u for u in ('bitsets.MemberBits.count',) if u not in PROPS['C14']['units']]          # fill_ratio counts the true cells with count()
+PROPS['C04']['units'] += [u for u in ('bitsets.MemberBits.bits', 'bitsets.MemberBits.count') if u not in PROPS['C04']['units']]      # _common.Concept.__str__ / n_objects
+PROPS['C06']['bounded_part'] = 'replay with labels whose alphabetical order differs from their position'
+PROPS['C06']['level_note'] = ('The key contract of bitsets is proved from the package source, including the member count (bitsets.MemberBits.count: bin(x).count("1") = number of '
+                              'members, lemmas/BitsBin.lean count_one_bin; strictly monotone under strict inclusion: card_lt_of_ssubset; lemma.bitsets.shortlex_key); B14 (order of '
+                              'naturals by the highest differing bit) is proved in Lean. Assumed: ' + _NEW_BS)
+PROPS['C18']['level_note'] = ('powerset() is no longer assumed: every subset once and the complete shortlex order (sizes and the tie order among equal-size subsets) are proved from the '
+                              'bitsets source; the bin()-based helpers (indexes_optimized, count) are proved as well (DESIGN 11.22), relative to the validated identification of '
+                              'CPython\'s bin / slicing / str.count with the Lean definitions.')
 NOT_APPLICABLE = {}
